@@ -53,7 +53,7 @@ def run_case(case):
     from pygradflow.step.step_solver_error import StepSolverError
     from pygradflow.transform import Transformation
     from pgfmc.drive.problems import UserProblem
-    from pgfmc.drive.run import make_params
+    from pgfmc.drive.run import make_params, RecordLinear
 
     n = len(case["vk"])
     spec = S.mk(n, case["obj"], [tuple(r) for r in case["rows"]], case["vk"])
@@ -113,8 +113,9 @@ def run_case(case):
                         it0 = Iterate(P, params, xb, y, ev)
                         ite = it0 if ei == 0 else Iterate(P, params, xe, ye, ev)
                         stats["solves"] += 1
+                        rl = RecordLinear()
                         try:
-                            with np.errstate(all="ignore"):
+                            with np.errstate(all="ignore"), rl:
                                 sv = step_solver(P, params, it0, dt, rho)
                                 sv.update_active_set(A)
                                 sv.update_derivs(it0)
@@ -129,8 +130,20 @@ def run_case(case):
                         if ls == "LU":
                             tol = 1e-10 * cond * scale
                         else:
-                            bn = float(np.linalg.norm(Fv)) * max(1.0, lam)
-                            tol = 20.0 * cond * max(1e-8, 1e-5 * bn) * max(1.0, dt) + 1e-10 * cond * scale
+                            # bound from the linear system actually handed to the iterative solver and its
+                            # stated stopping rule (GMRES: |r| <= max(1e-8, 1e-5|b|); MINRES: |r| <= 1e-5(|A||x|+|b|))
+                            sysm = rl.systems[-1]
+                            Mi = np.linalg.norm(np.linalg.inv(sysm["mat"]), 2) if sysm["mat"].size else 0.0
+                            rhs_, sol_, _ = sysm["solves"][-1]
+                            if ls == "GMRES":
+                                rres = max(1e-8, 1e-5 * float(np.linalg.norm(rhs_)))
+                            else:
+                                rres = 1e-5 * (float(np.linalg.norm(sysm["mat"], 2)) * float(np.linalg.norm(sol_)) + float(np.linalg.norm(rhs_)))
+                            # a solver that misses its own stopping rule is C17's concern: use the achieved residual
+                            ares = float(np.linalg.norm(sysm["mat"].dot(sol_) - rhs_))
+                            if ares > rres:
+                                stats["iter_missed_tol"] = stats.get("iter_missed_tol", 0) + 1
+                            tol = 2.0 * Mi * max(rres, ares) + 1e-10 * cond * scale
                         err = max(float(np.max(np.abs(gx - xn))), float(np.max(np.abs(gy - yn), initial=0.0)))
                         stats["compared"] += 1
                         if not np.isfinite(err) or err > tol:
@@ -186,7 +199,7 @@ def run_case(case):
 
 def summarize(cases_, results, tier):
     out = {}
-    for k in ("solves", "compared", "illcond", "solver_failed", "exact_checked", "first_step"):
+    for k in ("solves", "compared", "illcond", "solver_failed", "exact_checked", "first_step", "iter_missed_tol"):
         out[k] = sum(r["stats"].get(k, 0) for r in results)
     return out
 
